@@ -451,10 +451,16 @@ func EVAL(ctx context.Context, ast MalType, env EnvType) (res MalType, e error) 
 			ast = quasiquote(a1)
 		case "defmacro":
 			fn, e := EVAL(ctx, a2, env)
-			fn = fn.(MalFunc).SetMacro()
 			if e != nil {
 				return nil, e
 			}
+			if !Q[MalFunc](fn) {
+				return nil, lisperror.NewLispError(fmt.Errorf("defmacro requires a function (found %T)", fn), ast)
+			}
+			if !Q[Symbol](a1) {
+				return nil, lisperror.NewLispError(fmt.Errorf("cannot use '%T' as identifier", a1), ast)
+			}
+			fn = fn.(MalFunc).SetMacro()
 			return env.Set(a1.(Symbol), fn), nil
 		case "macroexpand":
 			return macroexpand(ctx, a1, env)
@@ -563,6 +569,9 @@ func EVAL(ctx context.Context, ast MalType, env EnvType) (res MalType, e error) 
 				ast = a2
 			}
 		case "fn":
+			if len(ast.(List).Val) < 2 {
+				return nil, lisperror.NewLispError(errors.New("fn requires a parameter list"), ast)
+			}
 			fn := MalFunc{
 				Eval:    EVAL,
 				Exp:     List{Val: append([]MalType{Symbol{Val: "do"}}, ast.(List).Val[2:]...)},
